@@ -578,6 +578,18 @@ Definition run (fuel : nat) (sc : script) (thread : bool) (w : world) (prompt : 
           (if thread then thread_cfg w else session_cfg w) prompt
           (if thread then Some initial else None).
 
+(* The run environment as the property quantifies it ("all inputs"): tools are subprocesses of the authority — the shell
+   tools inherit its whole environment (rip-tools builtins/shell.rs run_command, ripd tasks/pipes.rs, pty.rs: no
+   env_clear / env_remove) and the file tools can read the configuration files — so a tool's output is a function
+   of the call AND of the world.  `script` above is the special case of tools that ignore the world. *)
+Record wscript := mkWScript {
+  ws_validate : body -> list str;
+  ws_prov : N -> str -> body -> presp;
+  ws_tools : world -> tcall -> list str * str }.
+Definition inst (ws : wscript) (w : world) : script := mkScript (ws_validate ws) (ws_prov ws) (ws_tools ws w).
+Definition run_w (fuel : nat) (ws : wscript) (thread : bool) (w : world) (prompt : str) (initial : list item) : outputs :=
+  run fuel (inst ws w) thread w prompt initial.
+
 (* everything that is stored or shown: frames of both streams (the request-dump artifact is the
    body inside FDump) and the diagnostic summary *)
 Definition persisted (o : outputs) : list frame * list frame := (out_session o, out_thread o).
@@ -596,6 +608,18 @@ Definition low_env (e : env) : env :=
   map (fun kv => (fst kv, if is_public_env (fst kv) then snd kv else mask (snd kv))) e.
 Definition low_world (w : world) : world :=
   mkWorld (map low_layer (w_layers w)) (low_env (w_env w)) (w_ovr w).
+
+(* tools whose output does not depend on secret values (the hypothesis under which noninterference holds) *)
+Definition tools_blind (ws : wscript) : Prop := forall w c, ws_tools ws w c = ws_tools ws (low_world w) c.
+
+(* the shell tool asked for `printenv RIP_OPENRESPONSES_API_KEY`: what the real bash tool answers *)
+Definition printenv_tool (w : world) (c : tcall) : list str * str :=
+  match getenv (w_env w) E_API_KEY with
+  | Some v => ([v], v)
+  | None => ([], [])
+  end.
+Definition tool_events (fs : list frame) : list (list str) :=
+  flat_map (fun f => match f with FTool _ evs => [evs] | _ => [] end) fs.
 
 (* ---- T1: the syntactic uses of secret-bearing values the model accounts for ------------------ *)
 (* kinds of use the extractor (tools/gen/secret_uses.py) classifies every occurrence into *)
